@@ -613,13 +613,44 @@ func (e *Engine) selectOp(fr *frame, instr *ssa.Select) Value {
 					s.ch.recvW++
 				}
 			}
-			e.blockOn(g, func() bool { return len(ready()) > 0 }, "select")
+			// A goroutine parked in a select is woken by the first operation that makes one of
+			// its cases ready and commits to that case then - not to whatever else has become
+			// ready by the time it runs again. The set of ready cases is therefore frozen the
+			// first time the scheduler sees one (it looks at every scheduling point of the others).
+			for {
+				var first []int
+				e.blockOn(g, func() bool {
+					if first == nil {
+						if rr := ready(); len(rr) > 0 {
+							first = rr
+						}
+					}
+					return first != nil
+				}, "select")
+				now := ready()
+				r = r[:0]
+				for _, i := range first {
+					for _, j := range now {
+						if i == j {
+							r = append(r, i)
+						}
+					}
+				}
+				if len(r) > 0 {
+					break
+				}
+				if first == nil {
+					r = now // woken without the predicate having run: fall back to what is ready now
+					if len(r) > 0 {
+						break
+					}
+				}
+			}
 			for _, s := range states {
 				if s.ch != nil && s.dir == types.RecvOnly {
 					s.ch.recvW--
 				}
 			}
-			r = ready()
 		}
 	}
 	if len(r) > 0 {
